@@ -210,6 +210,7 @@ def digit_loop(run, m, F, E):
                             e[2], e[4], e[3].off, 'the formatter buffer' if e[3].obj == 'FMTR' else 'a constant table', e[5], e[1].line, own.fmt_env(env)))
                     else:
                         und.append('bounds of the access at line %d not decided' % e[1].line)
+                        need_exact.append(e[1].line)
             if o.kind == 'backedge':
                 nb += 1
                 b = s2.flags.get('wbegin:' + f.name) or {}
